@@ -39,6 +39,9 @@ fixed += [
     # axis-angle alignment with a MASSLESS final state below an isobar (its Wigner angles must be defined too)
     mg.default_cfg("chic0_omegaomega_hel", align="aa"),
     mg.default_cfg("psi2s_ggjpsi_hel", align="aa", keep=[0, 1]),
+    # the model returned by rename_symbols: every stable mass of a DPD model renamed (they occur inside the zeta-angle definitions)
+    mg.default_cfg("jpsi_ksp_hel", align="dpd1", stable=[1, 2, 3], scalar_m0=True, rename_nth={"par": list(range(12)), "kin": []}),
+    mg.default_cfg("jpsi_ksp_can", align="dpd2", stable=[1, 3], dyn="bw", rename_nth={"par": list(range(40)), "kin": [0, 3]}),
 ]
 small_for_aa = {"jpsi_gpipi_hel", "jpsi_gpipi_can", "etac_ll_hel", "etac_ll_can", "jpsi_ppbar_hel",
                 "jpsi_pipi_2body_hel", "d0_kkk_hel", "psi2s_jpsipipi_hel", "jpsi_ksp_hel", "lc_pkpi_hel", "chic0_omegaomega_hel"}
